@@ -392,8 +392,44 @@ fn      add r1 r1 #-1
 """, 0
 
 
+def p_selfmod_class(rnd):
+    # what a word IS changes while the program runs: a HALT placeholder overwritten by an ordinary instruction, a JSR / RET / HALT
+    # written at run time - the debugger must read the word that is in memory NOW
+    k = rnd.randrange(3)
+    if k == 0:
+        return """main    ld r0 newi
+        st r0 slot
+        and r1 r1 #0
+slot    halt
+        add r1 r1 #2
+        halt
+newi    add r1 r1 #1
+""", 0
+    if k == 1:
+        return """main    ld r0 jsri
+        st r0 slot
+        and r3 r3 #0
+slot    add r3 r3 #0
+        add r3 r3 #1
+        halt
+fn      add r3 r3 #4
+        ret
+jsri    jsr fn
+""", 0
+    return """main    ld r0 hlt
+        st r0 slot
+        jsr fn
+        add r1 r1 #1
+        halt
+fn      add r1 r1 #2
+slot    add r1 r1 #4
+        ret
+hlt     .fill xF025
+""", 0
+
+
 # (new templates go into PROGRAMS_LATER: the random sessions over PROGRAMS stay what they were, seed for seed)
-PROGRAMS_LATER = [p_return_other_reg, p_sub_halts]
+PROGRAMS_LATER = [p_return_other_reg, p_sub_halts, p_selfmod_halt, p_selfmod_class]
 
 PROGRAMS = [p_swap, p_case_labels, p_selfmod_halt, p_reg_midline, p_image_into_device_area, p_call_next, p_call_next_loop, p_store_outside, p_countdown, p_nested_jsr, p_call_rets, p_push_pop, p_selfmod, p_exception, p_halt_middle, p_breaks, p_io,
             p_unknown_trap, p_selfloop, p_no_halt, p_high]
